@@ -80,6 +80,76 @@ def make_browser_query(shape: Dict[str, Any]) -> Any:
     return fn
 
 
+def make_many_known(shape: Dict[str, Any]) -> Any:
+    """Dozens of cached pointer records learned in groups (one symbolic age / TTL per group): the real generate_service_query
+    buckets the questions, the real packets() splits the known answers; every datagram is read back."""
+    groups: List[Tuple[str, str, int]] = shape['groups']  # (group key, type, number of records)
+    types = sorted({t for _, t, _ in groups} | set(shape.get('extra_types', [])))
+
+    def fn(ctx: Any) -> None:
+        from vkit.pkt import Reader, name_labels, run_packets
+
+        t0 = ctx.int('t0', 2**43, 2**44)
+        loop = env.begin(ctx, t0)
+        env.use_token_packets(False)
+        zc = env.make_zc(loop)
+        held: Dict[str, Tuple[Any, Any, List[str]]] = {}
+        for g, t, n in groups:
+            age = ctx.int(f'age_{g}', 0, AGE_MAX)
+            ttl = ctx.int(f'ttl_{g}', 1, TTL_MAX)
+            aliases = [f'Instance-{g}-{i:03d}.{t}' for i in range(n)]
+            zc.cache.async_add_records([Spec('PTR', t, alias=a).make(ttl, t0 - age, False) for a in aliases])
+            held[g] = (t0 - age, ttl, aliases)
+        wire.install()
+        try:
+            outs = generate_service_query(zc, t0, set(types), True, DNSQuestionType.QM)
+            if ctx.twin:
+                return
+            asked = sorted(q.name for o in outs for q in o.questions)
+            ctx.check(asked == sorted(types), f'query asks {asked}, expected every browsed type once')
+            seen: Dict[str, List[str]] = {t: [] for t in types}
+            for o in outs:
+                snaps = run_packets(o)
+                nq_total = 0
+                small = True
+                for k, snap in enumerate(snaps):
+                    rd = Reader(snap, ctx)
+                    last = k == len(snaps) - 1
+                    hid, hflags, nq, nan, nns, nar = rd.header()
+                    ctx.check(rd.length <= 1460 or nq + nan == 1, f'query datagram of {rd.length} octets with {nq + nan} entries')
+                    ctx.check((hflags & const._FLAGS_TC != 0) == (not last), 'TC bit must be set on every datagram of a split query but the last')
+                    ctx.check(hflags & const._FLAGS_QR_MASK == const._FLAGS_QR_QUERY and nns == 0 and nar == 0, 'not a plain query datagram')
+                    ents = rd.entries(nq, nan)
+                    if not ctx.check(len(ents) == nq + nan and not any(e.get('malformed') for e in ents), 'header counts do not match the entries present'):
+                        return
+                    nq_total += nq
+                    ctx.check(k == 0 or nq == 0, 'questions repeated in a continuation datagram')
+                    for e in ents[nq:]:
+                        labels, _ = rd.read_name(e['rdata_index'])
+                        owner = b'.'.join(e['name']).decode() + '.'
+                        ctx.check(e['type'] == PTR and owner in seen, 'known answer is not a pointer record of an asked type')
+                        if owner in seen and labels is not None:
+                            seen[owner].append(b'.'.join(labels).decode() + '.')
+                        # remaining TTL in whole seconds
+                        g = next((gg for gg, (c, tl, al) in held.items() if labels is not None and b'.'.join(labels).decode() + '.' in al), None)
+                        if ctx.check(g is not None, 'known answer names an instance that is not cached'):
+                            created, ttl, _al = held[g]
+                            left = created + 1000 * ttl - t0
+                            v = e['ttl']
+                            ctx.check(1000 * v <= left and left < 1000 * v + 1000, 'known answer does not carry the remaining TTL in whole seconds')
+                    small = small and len(snaps) == 1
+                ctx.check(nq_total == len(o.questions), 'a question was lost when the query was split')
+                if len(o.questions) > 1:
+                    ctx.check(len(snaps) == 1, 'several questions were bucketed together although their known answers do not fit one datagram')
+            for t in types:
+                want = sorted(a for g, (c, tl, al) in held.items() for a in al if a.endswith('.' + t) and fresh((c, tl), t0))
+                ctx.check(sorted(seen[t]) == want, f'known answers for {t}: {len(seen[t])} listed, expected exactly the {len(want)} records with more than half their TTL left, each once')
+        finally:
+            wire.uninstall()
+
+    return fn
+
+
 def make_remaining_ttl(shape: Dict[str, Any]) -> Any:
     def fn(ctx: Any) -> None:
         env.begin(ctx, 1000)
@@ -232,6 +302,14 @@ def obligations(tier: str) -> List[Obligation]:
         bq.update({'three': {'cached': ['P1', 'P2', 'Q1'], 'types': [T1, T2]}, 'with-others': {'cached': ['P1', 'S1', 'A1']}})
     for k, v in bq.items():
         obs.append(Obligation(f'browser-query[{k}]', make_browser_query(v), 'browser-query', {'name': k, **{a: str(b) for a, b in v.items()}}, timeout=120))
+    mk = {
+        'one-type-two-groups': {'groups': [('g', T1, 30), ('h', T1, 30)]},
+        'two-types': {'groups': [('g', T1, 40), ('h', T2, 25)]},
+    }
+    if tier == 'thorough':
+        mk.update({'two-types-three-groups': {'groups': [('g', T1, 30), ('h', T1, 30), ('k', T2, 50)]}, 'small-and-large': {'groups': [('g', T1, 3), ('h', T2, 70)], 'extra_types': ['_ssh._tcp.local.']}})
+    for k, v in mk.items():
+        obs.append(Obligation(f'many-known-answers[{k}]', make_many_known(v), 'many-known-answers', {'name': k, **{a: str(b) for a, b in v.items()}}, timeout=280 if tier == 'quick' else 900))
     obs.append(Obligation('remaining-ttl', make_remaining_ttl({}), 'remaining-ttl', {}, timeout=60))
     from vkit import floatlemmas as fl
 
@@ -277,7 +355,7 @@ META = {
         'QueryHandler.async_response (history recording)', 'DNSCache.get_all_by_details', 'DNSRecord.is_stale/get_remaining_ttl', 'DNSOutgoing._write_ttl/_write_int/add_answer_at_time',
     ],
     'bounds': {'age ms': [0, AGE_MAX], 'ttl': [1, TTL_MAX], 'gap ms': [0, 2500], 'cached records': '<= 4', 'remaining-ttl lemma': 'created 1..2^44, ttl 0..2^32-1, now 0..2^45'},
-    'outside': ['hundreds of cached records / splitting over packets with TC (C14)', 'browser start-up QU-then-QM (C10) and lookup schedule (C18) are decided there'],
+    'outside': ['more than about 100 cached pointer records; ages symbolic per record rather than per group of records learned together (many-known-answers[*])', 'browser start-up QU-then-QM (C10) and lookup schedule (C18) are decided there'],
     'stubs': env.STUBS + ['remaining-ttl: DNSOutgoing._write_int replaced by a value-carrying token (vkit.wire)'],
     'float_sites': ['DNSRecord.get_remaining_ttl divides by 1000.0 and _write_int truncates: trunc(fl(x/1000.0)) == x div 1000 - decided by z3 in QF_BVFP for 0 <= x < 2^24 ms (float-lemma obligation), argued for larger x (vkit/floatlemmas.py)',
                     'DNSRRSet.suppresses / _suppressed_by_answer: other.ttl > ttl / 2 - decided in QF_BVFP for all 32-bit TTLs (float-lemma obligation)'],
